@@ -107,10 +107,17 @@ func Exercise(data []byte, c *harness.Ctx) (msg string) {
 	}
 	if len(p.SampleType) > 0 {
 		for _, fm := range formats {
-			for _, variant := range []int{0, 1} {
+			for _, variant := range []int{0, 1, 2} {
 				o := report.Options{OutputFormat: fm, SampleValue: func(v []int64) int64 { return v[0] }, SampleUnit: p.SampleType[0].Unit}
 				if variant == 1 {
 					o.NodeFraction, o.EdgeFraction, o.NodeCount, o.CumSort = 0.01, 0.01, 3, true
+				}
+				if variant == 2 {
+					// -mean on the last sample type: the first column is the divisor (zeros included)
+					last := len(p.SampleType) - 1
+					o.SampleValue = func(v []int64) int64 { return v[last] }
+					o.SampleMeanDivisor = func(v []int64) int64 { return v[0] }
+					o.SampleUnit = p.SampleType[last].Unit
 				}
 				q := p.Copy()
 				if variant == 1 {
@@ -664,7 +671,7 @@ func init() {
 		CaseTimeout:      2 * time.Minute,
 		HangTries:        3,
 		Rule: "each case expands into 20-300 inputs of one family: wire (valid codec-class encodings, mutated on an independently decoded wire tree: varint games, wire-type/field-number swaps, duplicated/deleted/reordered fields, missing string table, nested damage, id 0/huge; byte mutants; every truncation for encodings <=300 B), soup (random field soups over profile.proto numbers), legacy (documents from the C14 printers and repository testdata, token-level mutants: huge/negative/non-numeric numbers, deleted/duplicated/swapped lines, CRLF, missing sentinels), cpubin (binary CPU profiles, both endiannesses and word sizes, hostile counts), wrap (gzip wrappers: valid, truncated, corrupt, double, header only, trailing garbage; concatenations). " +
-			"part exe: six inputs of a random family given as files to the real executable (pprof -top|-raw|-traces -symbolize=none <file>): exit status 0..2, a message on stderr whenever it fails, no Go panic/fatal error. oracle: no panic; exactly one of error/profile; returned profile passes the independent validity checker; Write/WriteUncompressed/String/Copy/Compact and 9 report formats x 2 variants complete; accepted inputs round-trip (C01 oracle); ParseData allocation <= 1024*(len+gunzipped)+3MiB; a case (<=300 inputs, typically well under a second) that does not finish within 2 min in 3 of 3 fresh worker processes is a hang (violation, with goroutine dump); a single timeout is inconclusive. non-trivial = every case; distinct = (family, input count, base length)",
+			"part exe: six inputs of a random family given as files to the real executable (pprof -top|-raw|-traces -symbolize=none <file>): exit status 0..2, a message on stderr whenever it fails, no Go panic/fatal error. oracle: no panic; exactly one of error/profile; returned profile passes the independent validity checker; Write/WriteUncompressed/String/Copy/Compact and 9 report formats x 3 variants (plain, trimmed + fully aggregated, -mean) complete; accepted inputs round-trip (C01 oracle); ParseData allocation <= 1024*(len+gunzipped)+3MiB; a case (<=300 inputs, typically well under a second) that does not finish within 2 min in 3 of 3 fresh worker processes is a hang (violation, with goroutine dump); a single timeout is inconclusive. non-trivial = every case; distinct = (family, input count, base length)",
 		Assumptions: []string{"'promptly' is restated as an allocation bound proportional to input size plus the 3-of-3 hang rule (2 min per case of <=300 small inputs, about 1000x the typical case time)", "inputs bounded to 1 MiB"},
 		Parts: []harness.Part{
 			{Name: "wire", Quick: 400, Thor: 40000, Run: runInputs("wire")},
